@@ -39,9 +39,16 @@ type PropMeta struct {
 	BoundedPkg    string            `json:"bounded_pkg"`    // package dir (relative to repo) of the bounded stand-in test
 	BoundedTest   string            `json:"bounded_test"`   // test function name (file: bounded/<id>/bounded_test.go)
 	BoundedDir    string            `json:"bounded_dir"`    // directory under /verif/bounded holding the stand-in (default: the property id)
+	BoundedMore   []BoundedSpec     `json:"bounded_more"`   // further stand-ins this property's proof leans on (shared with other properties)
 	ReplayHelpers []string          `json:"replay_helpers"` // extra files (relative to /verif/replay) injected beside the driver
 	ReplayRace    bool              `json:"replay_race"`    // build the driver with the race detector; a reported race is a witness
 	Audit         []string          `json:"audit"`          // thorough tier: tests of /verif/audit (bounded differential audit of assumed library contracts)
+}
+
+type BoundedSpec struct {
+	Dir  string `json:"dir"`
+	Pkg  string `json:"pkg"`
+	Test string `json:"test"`
 }
 
 func hasProp(ps []string, id string) bool {
@@ -319,9 +326,19 @@ func runProperty(p *Prog, id, tier string, cfg SolverCfg, verifDir, outDir strin
 	}
 	// bounded stand-in (labelled bounded, never counted as proof)
 	var boundedStats string
+	var bspecs []BoundedSpec
 	if meta.BoundedTest != "" {
+		bspecs = append(bspecs, BoundedSpec{Dir: meta.BoundedDir, Pkg: meta.BoundedPkg, Test: meta.BoundedTest})
+	}
+	bspecs = append(bspecs, meta.BoundedMore...)
+	for _, bs := range bspecs {
+		meta := meta
+		meta.BoundedDir, meta.BoundedPkg, meta.BoundedTest = bs.Dir, bs.Pkg, bs.Test
 		stats, fails, out := runBounded(p.repo, verifDir, id, meta, seed, tier, "")
-		boundedStats = stats
+		if boundedStats != "" {
+			boundedStats += " ; "
+		}
+		boundedStats += bs.Test + ": " + stats
 		if stats == "" {
 			broken = append(broken, "bounded stand-in did not run: "+truncate(out, 400))
 		}
